@@ -98,17 +98,17 @@ CLAIMED = {
              'matrix, band packing, bandwidths, periodic wrap, two-sweep tensor solve) runs on symbolic data; the banded/sparse '
              'factorisation is replaced by its contract on the matrix unpacked by LAPACK\'s documented band layout; z3 shows the '
              'interpolant evaluated by the real kernels equals the data at every interpolation point, wrapped coefficients are '
-             'consistent, and on clamped spaces every polynomial of degree <= p is reproduced (value and slope) for all x.',
+             'consistent, and on clamped spaces every polynomial of degree <= p is reproduced (value and slope) for all x. Periodic spaces down to ncells == degree; genuinely complex data on clamped spaces, also when a real interpolator (or a 2-D one) was built on the same basis object before.',
         design_ref='DESIGN.md 4 C08',
         note=TRUST + 'Trusted: solve contract (elimination itself), exact Gaussian elimination in Q of lib/numenv. Not claimed: '
-                     'conditioning/rounding. Complex data covered through the zgbtrf code path with real proxies plus linearity.'),
+                     'conditioning/rounding. Complex data are pairs of symbolic reals; the dgbtrs stand-in discards imaginary parts like the f2py wrapper.'),
     'C09': dict(
         category='proof',
-        technique='concolic symbolic execution of the real quadrature/integral code on exact proxies with symbolic data; z3 linear queries against an independent exact integration oracle',
+        technique='concolic symbolic execution of the real quadrature/integral code on exact proxies with symbolic data; z3 linear queries against an independent exact integration oracle; rounded-real (|e| <= 2^-53 B per operation) run of the constructor for its floating-point decisions',
         text='Bounded solver proof in exact reals: for all data u, sum_i w_i u_i equals the exact integral of the interpolant '
              '(coefficients from the real compute_interpolant, basis integrals from an independent piecewise-polynomial integration '
              'in Q); weights sum to the domain length; equal on uniform periodic spaces; stored basis integrals equal the true '
-             'integrals (per periodic basis function on periodic spaces). Counter-models replayed on the float code.',
+             'integrals (per periodic basis function on periodic spaces). Periodic spaces down to ncells == degree. Additionally, for the uniform-cubic clamped constructor, the knot spans found in binary64 equal those of exact arithmetic for all doubles xmin in [-100,100], width in [2^-6,200] (rounded-real model in linear real arithmetic; binary64 witness search only for counter-models). Counter-models replayed on the float code.',
         design_ref='DESIGN.md 4 C09',
         note=TRUST + 'Bounds: degrees 1-5 (thorough 1-6), listed knot families, cells <= 8, uniform-cubic fast path; stored basis integrals additionally for ALL break points of degree 1-2 spaces (2-3 cells) and one symbolic break point of cubic spaces. Solver contracts as C08.'),
     'C10': dict(
@@ -199,16 +199,16 @@ CLAIMED = {
                      'collector min/max exercised on a concrete exact field.'),
     'C18': dict(
         category='proof',
-        technique='symbolic execution of the real Layout tables (unbounded extent), of the real checkpoint-selection statements on symbolic file names (digit-variable string order), and of the real driver under recording stubs with symbolic times and clock; z3 queries',
+        technique='symbolic execution of the real Layout tables (unbounded extent), of the real checkpoint-selection statements on symbolic file names (digit-variable string order), of the real driver under recording stubs with symbolic times and clock, and of the real constants-file parser with symbolic values and solver-chosen key order; z3 queries',
         text='Partial claim. (a) For all extents, the write slices of p ranks tile each dataset dimension and the read slices of p\' ranks '
              'tile it too (p,p\'<=4, thorough 8), so a checkpoint can be read back under a different process count. (b) The statements that '
              'select the checkpoint in setupFromFile / Grid.loadFromFile, extracted from the current source and run on symbolic file names '
              'produced by the writer\'s own format expression, always select the largest time (times < 10^8, 2-3 files). (c) The real driver '
              'under recording stubs, symbolic start/end times, every saveStep<=3 (thorough 4), arbitrary clock, <=3 (6) iterations: no '
              'exception on any path, identical operator sequence in every iteration, the final time is checkpointed exactly once and no '
-             'time twice, so a restart resumes at the last time reached and N + M steps equal N+M steps at the level of control flow.',
+             'time twice, so a restart resumes at the last time reached and N + M steps equal N+M steps at the level of control flow. (d) The real get_constants / eval_expr on files with chains of symbolic expressions: for every order in which the keys are consumed (solver-chosen permutation, 6-key files) and all numeric root values, every constant equals its expression over the roots and absent constants keep their defaults.',
         design_ref='DESIGN.md 4 C18',
-        note=TRUST + 'NOT decided: bit-exact HDF5 I/O (h5py C library without MPI-IO here), constants printer/parser round trip, non-integer time steps. '
+        note=TRUST + 'NOT decided: bit-exact HDF5 I/O (h5py C library without MPI-IO here), the printer of the saved parameter file and the text-level float round trip, an explicit rp entry (rp is derived from rMin/rMax), non-integer time steps. '
                      'Driver collaborators are stubs; dt=2.'),
     'C19': dict(
         category='translation_validation',
@@ -224,12 +224,12 @@ CLAIMED = {
                      'itself is not exercised (copies run as Python); poloidal steps and get_lagrange_vals of the copies are not exercised.'),
     'C20': dict(
         category='proof',
-        technique='concolic symbolic execution of the real Python function on z3 Int proxies; per-path SMT queries (bounded)',
+        technique='concolic symbolic execution of the real Python functions on z3 Int proxies (grid selection on symbolic maxima; the two set-up functions on a communicator with symbolic rank); per-path SMT queries (bounded)',
         text='Bounded solver proof: for every mpi_size in the tier bound, every feasible path of the real '
              'compute_2d_process_grid(_from_max) over symbolic maxima/grid sizes in [1,M] is enumerated and z3 shows the '
              'returned grid is a valid factorisation within the maxima, RuntimeError is raised only when no divisor pair '
-             'fits, no other exception occurs and each path has a bounded number of decisions. Counter-models are replayed '
-             'on the real float code before being reported.',
+             'fits, no other exception occurs and each path has a bounded number of decisions. Set-up wiring: in setupCylindricalGrid and setupFromFile (fresh run / restart, with and without a plot rank, first or last rank drawing) the grid handed to getLayoutHandler multiplies to the size of the communicator handed over with it, for every rank. Counter-models are replayed '
+             'on the real code (grid function in floats; set-ups with the real layout manager on all simulated ranks) before being reported.',
         design_ref='DESIGN.md 4 C20',
         note=TRUST + 'Bounds: quick mpi_size<=32, maxima<=64; thorough mpi_size<=128, maxima<=256. Ratio comparison is '
                      'exact-rational (each path is cross-checked once against the float code).'),
